@@ -32,6 +32,12 @@ tvars == <<vars, l, drift, tno, k>>
 Ev == Trace[l]
 IsEv(e) == l <= Len(Trace) /\ Ev.e = e
 
+\* When the retry of a failed attempt is due: initial_retry_time * retry_time_scale ^ (n - 1) after the n-th
+\* attempt of the message (queue.go: tryDelivery and, across a restart, readDiskQueue).  The harness logs the
+\* number of the attempt (att); rd / scale come from the Cfg line.  Older traces carry the due time itself.
+RetryDue(e) == IF "att" \in DOMAIN e /\ "scale" \in DOMAIN cfg
+               THEN e.now + cfg.rd * (cfg.scale ^ (e.att - 1)) ELSE e.ndue
+
 ObsApply(o, e) ==
   CASE e.e = "AddCall"     -> ObsAddCall(o, e.p, e.ent, e.due)
     [] e.e = "AddReturn"   -> ObsAddReturn(o, e.p)
@@ -39,7 +45,7 @@ ObsApply(o, e) ==
     [] e.e = "CloseCall"   -> ObsCloseCall(o)
     [] e.e = "CloseReturn" -> ObsCloseReturn(ObsSpool(o, "close", ToSet(e.pending), ToSet(e.broken)))
     [] e.e = "Dispatch"    -> LET o1 == ObsDispatch(o, e.ent, e.now)
-                              IN IF e.res = "temp" THEN ObsSched(o1, e.next, e.ndue)
+                              IN IF e.res = "temp" THEN ObsSched(o1, e.next, RetryDue(e))
                                  ELSE IF e.res = "panic" THEN ObsAttemptPanic(o1, e.m)
                                  ELSE ObsTerminal(o1, e.m)
     [] e.e = "Panic"       -> ObsPanic(o)
@@ -60,8 +66,13 @@ TInit ==
 
 TReset ==
   /\ IsEv("Cfg")
-  /\ LET c == [due |-> Ev.due, close |-> Ev.close, retry |-> ToSet(Ev.retry), par |-> Ev.par,
-               hdr |-> ToSet(Ev.hdr), panic |-> ToSet(Ev.panic)] IN
+  /\ LET c0 == [due |-> Ev.due, close |-> Ev.close, retry |-> ToSet(Ev.retry), par |-> Ev.par,
+                hdr |-> ToSet(Ev.hdr), panic |-> ToSet(Ev.panic)]
+         \* (rd, scale: only read by RetryDue; the design's actions do not look at them)
+         c == IF "scale" \in DOMAIN Ev /\ "rd" \in DOMAIN Ev
+              THEN [due |-> c0.due, close |-> c0.close, retry |-> c0.retry, par |-> c0.par, hdr |-> c0.hdr,
+                    panic |-> c0.panic, rd |-> Ev.rd, scale |-> Ev.scale]
+              ELSE c0 IN
        /\ cfg' = c /\ now' = 0
        /\ stopped' = FALSE /\ slots' = {} /\ updClosed' = FALSE /\ doneClosed' = FALSE
        /\ apc' = [p \in Adders |-> IF p \in DOMAIN c.due THEN "ab" ELSE "idle"]
